@@ -5,3 +5,4 @@ import "verif/checker/internal/core"
 func c01R7(l *core.Ledger) {}
 
 func c11K8(l *core.Ledger) {}
+func c05M5gen(l *core.Ledger) {}
